@@ -312,7 +312,7 @@ SPEC = PropertySpec(
     modules=MODULES,
     run=run,
     replay=replay,
-    gen=translate.generate,
+    gen=translate.gen_for('CacheKeys'),
     rule=('real from_lammps (generated xyz + LAMMPS data file), from_vasprun (generated minimal vasprun.xml) and from_gromacs '
           '(MDAnalysis.Universe stubbed) in scratch directories, once with source coordinates inside the box and once with atoms that left it (unwrapped): parsed positions '
           '= source coordinates modulo the cell; reference = load with no cache present, per argument variant; '
